@@ -203,15 +203,15 @@ func RunTree(r *vh.Run, rng *vh.RNG, name string, t *chainx.Tree, sched [][]int)
 			break
 		}
 		if bt, ok := t.Lookup(beforeTip.ID); ok {
-			at, ok := t.Lookup(nd.CM.Tip().ID)
+			at, _ := t.Lookup(nd.CM.Tip().ID)
+			failedTarget := -1
 			if res == "reorg-failed" {
-				at = batch[len(batch)-1] // rolled back: the old branch was reverted and re-applied
+				failedTarget = batch[len(batch)-1]
 			}
-			if ok && at != bt && t.Blocks[at].Parent != chainx.OrphanParent {
-				for _, x := range revertedBetween(t, bt, at) {
-					if d := decls[x]; d != nil && d.Unstable {
-						tainted = true
-					}
+			for _, x := range t.Reverted(bt, at, failedTarget) {
+				if d := decls[x]; d != nil && d.Unstable && !tainted {
+					tainted = true
+					c.KnownFrom, c.KnownClass = len(c.Ops)-1, "exp-order-after-mid-list-revert"
 				}
 			}
 		}
